@@ -24,7 +24,7 @@ impl patterns::Pattern {
         ensures match match_spec(*self, value@) { Some(b) => r == Ok::<bool, error::Error>(b), None => r is Err }
     { unimplemented!() }
 }
-pub struct RuntimeOptions { pub extended_globbing: bool, pub case_insensitive_conditionals: bool, pub print_commands_and_arguments: bool }
+// RuntimeOptions: the real struct of brush-core/src/options.rs is extracted by the unit
 impl Shell {
     pub uninterp spec fn opts(&self) -> RuntimeOptions;
     #[verifier::external_body]
